@@ -3,6 +3,7 @@ class-level part of C06 (generated vs interpretive)."""
 from __future__ import annotations
 
 import copy
+import itertools
 import random
 import re
 
@@ -760,11 +761,16 @@ def key_modes_pairwise(v, prop, hist):
                 walk(y)
         walk(e)
         return out
-    for kind in ("required", "init_default", "noinit_default"):
-        for keymode in ("name", "rename", "alias_private", "alias_explicit"):
-            for forbid in (False, True):
+    for kind, keymode, forbid, handler in itertools.product(("required", "init_default", "noinit_default"), ("name", "rename", "alias_private", "alias_explicit"),
+                                                            (False, True), ("typed", "field_converter_preferred", "untyped")):
+        if True:
+            if True:
                 fname = "_tok" if keymode == "alias_private" else "tok"
-                fkw = {"type": int}
+                # how the attribute's value is produced: the hook of its type / its attrs field converter (no structure hook is
+                # involved: prefer_attrib_converters) / nothing at all (no type: the raw value)
+                fkw = {"type": int} if handler != "untyped" else {}
+                if handler == "field_converter_preferred":
+                    fkw["converter"] = int
                 if kind != "required":
                     fkw["default"] = 5
                 if kind == "noinit_default":
@@ -773,6 +779,8 @@ def key_modes_pairwise(v, prop, hist):
                     fkw["alias"] = "token"
                 cl = attrs.make_class("KP", {"lead": attrs.field(type=int), fname: attrs.field(**fkw)})
                 kw = {"_cattrs_use_alias": keymode in ("alias_private", "alias_explicit"), "_cattrs_forbid_extra_keys": forbid}
+                if handler == "field_converter_preferred":
+                    kw["_cattrs_prefer_attrib_converters"] = True
                 if kind == "noinit_default":
                     kw["_cattrs_include_init_false"] = True
                 if keymode == "rename":
@@ -787,7 +795,7 @@ def key_modes_pairwise(v, prop, hist):
                            [{"lead": 1, key: 9, o: 3} for o in others] + [{"lead": 1, o: 3} for o in others]
                 for p in payloads:
                     n += 1
-                    desc = {"lane": "TPL key-modes", "attribute": kind, "key_mode": keymode, "forbid_extra_keys": forbid, "configured_key": key, "payload": repr(p)}
+                    desc = {"lane": "TPL key-modes", "attribute": kind, "key_mode": keymode, "value_from": handler, "forbid_extra_keys": forbid, "configured_key": key, "payload": repr(p)}
                     v.count(repr((prop, desc)), True)
                     res = {}
                     for dv in (True, False):
@@ -825,6 +833,45 @@ def key_modes_pairwise(v, prop, hist):
                                     v.violation("without forbid_extra_keys an unknown key changed the outcome",
                                                 {**desc, "detailed_validation": dv, "with_extras": repr(cur)[:200], "without": repr(b0)[:200]})
     hist["key_mode_pairwise_cases"] = n
+
+
+def key_modes_classes(v, hist):
+    """systematic, for C06: one attribute x {required, __init__ argument with default} x {own name, private name, explicit alias}
+    x {value from the hook of its type, from its attrs field converter with prefer_attrib_converters, untyped} x both modes:
+    Converter and BaseConverter with the same options accept the same payloads with the same instance."""
+    import attrs
+    from cattrs import BaseConverter
+    n = 0
+    for kind, keymode, handler, dv in itertools.product(("required", "init_default"), ("name", "private", "alias_explicit"),
+                                                        ("typed", "field_converter_preferred", "field_converter", "untyped"), (True, False)):
+        fname = "_tok" if keymode == "private" else "tok"
+        fkw = {"type": int} if handler != "untyped" else {}
+        if handler.startswith("field_converter"):
+            fkw["converter"] = int
+        if kind != "required":
+            fkw["default"] = 5
+        if keymode == "alias_explicit":
+            fkw["alias"] = "token"
+        cl = attrs.make_class("KC", {"lead": attrs.field(type=int), fname: attrs.field(**fkw), "tail": attrs.field(type=str, default="t")})
+        kw = {"detailed_validation": dv, "prefer_attrib_converters": handler == "field_converter_preferred"}
+        a, b = Converter(**kw), BaseConverter(**kw)
+        others = sorted({"tok", "_tok", "token", "zz"} - {fname})
+        payloads = [{"lead": 1, fname: 9}, {"lead": 1, fname: 9, "tail": "u"}, {"lead": 1}, {"lead": 1, fname: "7"}, {"lead": 1, fname: "bad"}, {fname: 9}] + \
+                   [{"lead": 1, fname: 9, o: 3} for o in others] + [{"lead": 1, o: 3} for o in others]
+        for p in payloads:
+            n += 1
+            desc = {"lane": "TPL key-modes (classes)", "attribute": kind, "key_mode": keymode, "value_from": handler, "options": kw, "payload": repr(p)}
+            v.count(repr(("C06", desc)), True)
+            res = []
+            for c in (a, b):
+                try:
+                    r = c.structure(dict(p), cl)
+                    res.append(("ok", (r.lead, getattr(r, fname), r.tail)))
+                except Exception as e:
+                    res.append(("err", type(e).__name__))
+            if res[0][0] != res[1][0] or (res[0][0] == "ok" and res[0][1] != res[1][1]):
+                v.violation("Converter and BaseConverter disagree on acceptance or on the instance", {**desc, "converter": repr(res[0]), "base_converter": repr(res[1])})
+    hist["key_mode_class_cases"] = n
 
 
 def K_of(f):
